@@ -69,6 +69,15 @@ def run_long(item):
                     pulled[0] += 1
                     yield dict(a=i % 3, b='s%d' % i, k=i + 1, **({'late': None if i < n * 3 // 4 else 'v'} if late else {}))
             src = gen()
+            if item['source'] == 'iterable_sized':
+                # a lazily iterated collection that also knows its length (a result set, a query, a file-backed table)
+                class Sized:
+                    def __len__(self):
+                        return n
+
+                    def __iter__(self):
+                        return gen()
+                src = Sized()
         else:
             path = os.path.join(root, 'in.csv')
             with open(path, 'w') as f:
@@ -156,7 +165,7 @@ def run():
     model(rep, t)
     sizes = (300, 3000) if t == 'quick' else (1000, 100000)
     progs = programs(r, t)
-    cands = [dict(id='x', prog=p, source=source) for i, p in enumerate(progs) for source in (['iterable'] if i % 3 == 1 else ['iterable_latecol'] if i % 3 == 2 else ['iterable', 'csv', 'csv_limit' if i % 2 else 'csv_half'])]
+    cands = [dict(id='x', prog=p, source=source) for i, p in enumerate(progs) for source in (['iterable', 'iterable_sized'] if i % 3 == 1 else ['iterable_latecol'] if i % 3 == 2 else ['iterable', 'csv', 'csv_limit' if i % 2 else 'csv_half'])]
     okres = pmap(dry_run, cands, chunksize=2)
     cands = [c for c, o in zip(cands, okres) if o.get('ok')]
     rep.notes['programs_welltyped'] = len(cands)
